@@ -476,7 +476,8 @@ def gen_case(rng):
 
 
 def directed_cases():
-    """hand-written shapes: duplicates, the segment-label collision (both orders), start labels on shared addresses"""
+    """hand-written shapes: duplicates, the segment-label collision in both orders (former findings F17/N2, now a
+    "label declared twice" error: kept as regression probes), start labels on shared addresses"""
     out = []
 
     def mk(w, text, events, starts, tag):
